@@ -198,11 +198,17 @@ func isResolverFile(layout, name string) bool {
 func (w *W) userEdit(r *rng.R, o EditOpts) error {
 	ms, _ := filepath.Glob(filepath.Join(w.Dir, "*.go"))
 	sort.Strings(ms)
+	first := true
 	for _, m := range ms {
 		if !isResolverFile(w.Layout, filepath.Base(m)) {
 			continue
 		}
-		if err := w.editFile(r, m, o); err != nil {
+		fo := o
+		if !first { // verbatim helpers / imports go into the first resolver file only
+			fo.ExtraHelpers, fo.ExtraImports = nil, nil
+		}
+		first = false
+		if err := w.editFile(r, m, fo); err != nil {
 			return fmt.Errorf("edit %s: %w", m, err)
 		}
 	}
